@@ -84,6 +84,24 @@ def evaluate(case):
         if dd:
             return VIOL(dict(sgn, kind='mirror-edges'), 'after recompute_edges the trough-centred table is not the mirror of the '
                         'peak-centred table of -x: ' + dd, evals=nev)
+    if True:
+        # ONE set of option objects (an empty burst-option dict included) shared by the peak-centred and the trough-centred call, as a
+        # user comparing the two centrings would write it: peak first, then trough, then peak again
+        from bycycle.features import compute_features
+        shared = S.call_kwargs(o)
+        shared.pop('center_extrema', None)
+        shared['return_samples'] = True
+        shared.setdefault('burst_kwargs', {})
+        shared.setdefault('find_extrema_kwargs', {'filter_kwargs': {'n_cycles': 3}})
+        fs_, fr_ = S.call_fs(o)
+        sp = compute_features(-np.array(sig, float), fs_, fr_, center_extrema='peak', **shared)
+        st = compute_features(np.array(sig, float), fs_, fr_, center_extrema='trough', **shared)
+        sp2 = compute_features(-np.array(sig, float), fs_, fr_, center_extrema='peak', **shared)
+        nev += 3
+        dd = diff_tables(st, mirror(sp), exact=True) or diff_tables(st, mirror(sp2), exact=True)
+        if dd:
+            return VIOL(dict(sgn, kind='mirror', shared_options=True), 'with one set of option objects shared by both calls (peak, trough, peak) the '
+                        'trough-centred table is not the mirror of the peak-centred table of -x: ' + dd, evals=nev)
     if devs in ((), ('amp',)) and isinstance(w, str):
         # analysis objects WITHOUT sample columns that were loaded with an earlier table before being fitted: the centring stays
         # the one the object was configured with
